@@ -4,6 +4,8 @@ import FlodymProofs.Props.C05
 #print axioms Flodym.C05.setitem_number_fills
 #print axioms Flodym.C05.setitem_whole_array
 #print axioms Flodym.C05.setitem_whole_ndarray
+#print axioms Flodym.C05.source_empty_key_is_whole_array
+#print axioms Flodym.C05.setitem_whole_ndarray_any_key
 #print axioms Flodym.C05.list_key_array_rhs_is_positional_D10
 #print axioms Flodym.C05.history_last_writer_wins
 #print axioms Flodym.C05.history_last_write_value
